@@ -155,7 +155,7 @@ Print Assumptions C10_lt_date_brackets.
    arguments) restricted to the operators covered by the proof:
    $and $or $nor, implicit and, literal equality, $eq $gt $gte $lt $lte $ne,
    $in $nin, $exists, $type, $size, $mod, $bitsAllSet/AllClear/AnySet/AnyClear,
-   $not.  $all and $elemMatch are in `core` but only tested (family matchref);
+   $not, $all.  $elemMatch is in `core` but only tested (family matchref);
    $jsonSchema has no reference semantics here. *)
 Theorem C10_match_ref_partial : forall d f,
   core_covered d f -> Match d f = Ok (RefMatch.holds d f).
